@@ -50,20 +50,22 @@ SLOW_GAMMAS = ["63/64", "127/128", "255/256", "1023/1024"]
 # reuse of one RMAX object on MDPs of different table sizes (on since /repo 235fcf2 fixed the cached
 # _self_transition_mat; C17_REUSE_ANY_SIZE=0 restricts the second MDP to the same table size)
 REUSE_ANY_SIZE = os.environ.get("C17_REUSE_ANY_SIZE", "1") == "1"
-# explicit _state_list containing unreachable states (off: msdm sizes its tables by reachable_states() but
-# indexes them by state_list.index -> IndexError / Q dict not over state_list; reported, decision pending)
-EXPLICIT_UNREACHABLE = os.environ.get("C17_EXPLICIT_UNREACHABLE", "0") == "1"
+# explicit _state_list containing unreachable states (on since /repo 58359b8: tables are sized by
+# len(state_list); before, they were sized by reachable_states() but indexed by state_list.index -> IndexError).
+# The Q dict then spans ALL listed states; unreachable ones are never tried and stay at the optimistic value.
+EXPLICIT_UNREACHABLE = os.environ.get("C17_EXPLICIT_UNREACHABLE", "1") == "1"
 
 
 # ---------------------------------------------------------------------------------------------
 # generation
 # ---------------------------------------------------------------------------------------------
-def rmax_of(m):
-    """np.max(mdp.reward_matrix): the matrix spans reachable states x all actions x reachable states,
-    holds reward(s,a,ns) where the transition probability is non-zero and 0 elsewhere"""
-    reach = sorted(gen_mdp.reachable(m))
-    al = sorted({a for s in reach for a in m["actions"][s]})
-    _, R, _, _, _ = gen_mdp.arrays(m, reach, al)
+def rmax_of(m, explicit=None):
+    """np.max(mdp.reward_matrix): the matrix spans state_list x action_list x state_list (the explicit
+    lists when given, unreachable states included; else reachable states x their actions), holds
+    reward(s,a,ns) where the transition probability is non-zero and 0 elsewhere"""
+    states = sorted(explicit["states"]) if explicit else sorted(gen_mdp.reachable(m))
+    al = sorted({a for s in states for a in m["actions"][s]})
+    _, R, _, _, _ = gen_mdp.arrays(m, states, al)
     return max(x for row in R for r2 in row for x in r2)
 
 
@@ -81,8 +83,8 @@ def presentation(rng, m):
                     as a tuple, a list or a frozenset;
     state labels    ints 0..n-1 / renamed ints / strings (incl. "") / tuples (incl. ()): sorted(state_list)
                     then differs from the id order;
-    explicit lists  _state_list/_action_list set explicitly in a shuffled order (exactly the reachable
-                    states; with C17_EXPLICIT_UNREACHABLE=1 also unreachable ones, see report) or inferred;
+    explicit lists  _state_list/_action_list set explicitly in a shuffled order (all generated states,
+                    unreachable ones included; C17_EXPLICIT_UNREACHABLE=0: only the reachable ones) or inferred;
     numbers         gamma / rmax passed as int when integral (0, 1, 4) in half of those cases."""
     nA, n = m["nA"], m["n"]
     kind = rng.random()
@@ -222,9 +224,10 @@ def gen_case(rng, tier):
         # slow-decay family: certificate only (an exact mirror would need thousands of exact sweeps)
         m = gen_slow_mdp(rng)
         case = {"mdp": m, "m": rng.choice([1, 1, 2]), "episodes": rng.randint(3, 10),
-                "seed": draw_seed(rng), "tol": "1/100000", "rmax": str(rmax_of(m)),
+                "seed": draw_seed(rng), "tol": "1/100000",
                 "family": "slow-decay", "mirror": False, "variants": []}
         case.update(presentation(rng, m))
+        case["rmax"] = str(rmax_of(m, case["explicit_lists"]))
         return case
     gamma = rng.choice(GAMMAS * 6 + ["0"])            # discount 0 exactly in ~5%
     m = gen_main_mdp(rng, tier, gamma, keep_trivial=rng.random() < .08, nonpos=rng.random() < .06)
@@ -233,10 +236,11 @@ def gen_case(rng, tier):
     case = {"mdp": m, "m": rng.randint(1, 5), "episodes": episodes,
             "seed": draw_seed(rng),
             "tol": rng.choice(["1/100000"] * 6 + ["1/1000", "1/1000", "1/10", "1/10", "1/1000000000"]),
-            "rmax": str(rmax_of(m)), "variants": variants,
+            "variants": variants,
             # a second, fresh RMAX object with the default listener on the already-used MDP object
             "default_listener_rerun": rng.random() < .15}
     case.update(presentation(rng, m))
+    case["rmax"] = str(rmax_of(m, case["explicit_lists"]))
     if rng.random() < .2:
         # object reuse: the SAME RMAX object is trained on this MDP and then again, either on the very same
         # MDP object or on a second MDP with a different discount rate (and its own rewards / rmax); each
@@ -255,8 +259,9 @@ def gen_case(rng, tier):
         if m2 is None:
             # same structure, other discount, rewards doubled
             m2 = dict(m, gamma=g2, reward={k: str(2 * F(v)) for k, v in m["reward"].items()})
-        then = {"mdp": m2, "rmax": str(rmax_of(m2))}
+        then = {"mdp": m2}
         then.update(presentation(rng, m2))
+        then["rmax"] = str(rmax_of(m2, then["explicit_lists"]))
         case["then"] = then
     return case
 
@@ -410,6 +415,7 @@ def run(ctx):
                 "seed_0": 0, "seed_None": 0, "episodes_0": 0, "gamma_0": 0, "rmax_0": 0, "ints_passed_as_int": 0,
                 "actions_as_list_or_frozenset": 0}
     by_gamma, by_m, by_variant = {}, {}, {}
+    first_size = {}
     for u, (case, view, res, tag) in enumerate(units):
         sp = structure_problem(view, res)
         if sp:
@@ -492,9 +498,11 @@ def run(ctx):
         counters["actions_as_list_or_frozenset"] += int(view.get("actions_container", "tuple") != "tuple")
         for t in view.get("variants", []):
             by_variant[t] = by_variant.get(t, 0) + 1
+        if tag == "first":
+            first_size[id(case)] = (nS, nA)
         if tag == "reused":
             counters["reused_object_second_trainings"] += 1
-            counters["reused_with_different_table_size"] += int(table_size(case["mdp"]) != table_size(view["mdp"]))
+            counters["reused_with_different_table_size"] += int((nS, nA) != first_size.get(id(case)))
         if view.get("family") == "slow-decay":
             counters["slow_decay_family"] += 1
             live = [s for s in range(nS) if not absf[s]]
